@@ -7,7 +7,6 @@ open CP Spec
 
 theorem propagateErr_notFull {s : Slot} (h : s.isFull = false) (e : Err) : propagateErr s e = .ok (s.withErr e) := by
   cases s <;> simp_all [Slot.isFull, Slot.withErr, propagateErr]
-  all_goals rfl
 
 variable (f : Int → Slot → M (ℝ × Slot)) (error : Slot)
 
